@@ -1142,6 +1142,8 @@ func main() {
 	ncut := flag.Int("cut", 18, "number of trcut scenarios (response cut at byte k, followers must get a fresh connection)")
 	nsplit := flag.Int("split", 40, "number of trsplit scenarios (one call split into several exchanges and merged)")
 	npage := flag.Int("page", 12, "number of trpage scenarios (page pool cross-talk between Fetch responses)")
+	nmuxcut := flag.Int("muxcut", 24, "number of muxcut scenarios (concurrent Conn operations, first answer cut at byte k)")
+	nmeta := flag.Int("meta", 10, "number of trmeta scenarios (first metadata response of a fresh Transport cut)")
 	nlate := flag.Int("late", 24, "number of trlate scenarios (deadline mid-exchange, late answer, followers)")
 	flag.Parse()
 
@@ -1188,6 +1190,12 @@ func main() {
 	}
 	for i := 0; i < *npage; i++ {
 		add(genTRPage(r))
+	}
+	for i := 0; i < *nmuxcut; i++ {
+		add(genMuxCut(r))
+	}
+	for i := 0; i < *nmeta; i++ {
+		add(genTRMeta(r))
 	}
 
 	// big scenarios first, results printed in id order
